@@ -2,6 +2,7 @@ import TWV.Driver.Proto
 import TWV.Model.Search
 import TWV.Model.Arrays
 import TWV.Model.Match
+import TWV.Model.Rfa
 
 /-! # Operation dispatch of the model driver (one function per protocol operation) -/
 
@@ -63,6 +64,53 @@ def opMatchRef : List String → String
     | _, _, _, _, _, _, _ => bad
   | _ => bad
 
+
+/-! ### rfa.py -/
+
+def listFn (l : List Nat) : Nat → Nat := fun k => l.getD k 0
+
+def opRfaParams : List String → String
+  | [B, n, alpha, a, beta] =>
+    match B.toNat?, n.toNat?, parseRat? alpha, parseOpt? String.toNat? a, parseRat? beta with
+    | some B, some n, some alpha, some a, some beta =>
+      let av := Rfa.deriveA B n alpha a
+      let al := av / 2
+      s!"ok {av} {al} {Rfa.deriveB B beta al}"
+    | _, _, _, _, _ => bad
+  | _ => bad
+
+def opRfaWin : List String → String
+  | [gpow, a, n, y] =>
+    match parsePw? gpow, a.toNat?, n.toNat?, rats? y with
+    | some gpow, some a, some n, some y =>
+      let m := y.length
+      let Y := Rfa.Yk (arrFn y.toArray) m n
+      let w := Rfa.windowsAdaptive gpow a m Y (fun v => v)
+      let ks := List.range (m + 1)
+      let flags := ks.map (fun k => if k = 0 ∨ m ≤ k then 0 else if Rfa.adaptiveExactInt gpow a Y k then 1 else 0)
+      s!"ok {fmtNats (ks.map w.aL)} {fmtNats (ks.map w.aR)} {fmtNats flags}"
+    | _, _, _, _ => bad
+  | _ => bad
+
+def opRfa : List String → String
+  | [strategy, pw, n, x, y, aL, aR, bL, bR] =>
+    match Rfa.Strategy.ofString? strategy, parsePw? pw, n.toNat?, rats? x, rats? y,
+          nats? aL, nats? aR, nats? bL, nats? bR with
+    | some s, some pw, some n, some x, some y, some aL, some aR, some bL, some bR =>
+      let m := x.length
+      if n < 2 then "ERR ValueError"
+      else if m < 2 ∨ y.length ≠ m then "unmodelled"
+      else
+        let w : Rfa.Windows := { aL := listFn aL, aR := listFn aR, bL := listFn bL, bR := listFn bR }
+        if s ≠ .pc ∧ !Rfa.windowsOk w m n then "unmodelled"
+        else
+          let xf := arrFn x.toArray
+          let yf := arrFn y.toArray
+          let L := Rfa.outLen m n
+          s!"ok {fmtRats (tab L (Rfa.outX xf m n)).toList} {fmtRats (tab L (Rfa.outY s pw xf yf m n w)).toList}"
+    | _, _, _, _, _, _, _, _, _ => bad
+  | _ => bad
+
 def dispatch (line : String) : String :=
   match (line.trimAscii.toString.splitOn " ").filter (· ≠ "") with
   | [] => bad
@@ -73,6 +121,9 @@ def dispatch (line : String) : String :=
     | "loop" => opLoop args
     | "fixed" => opFixed args
     | "matchref" => opMatchRef args
+    | "rfaparams" => opRfaParams args
+    | "rfawin" => opRfaWin args
+    | "rfa" => opRfa args
     | _ => bad
 
 end TWV.Driver
